@@ -145,7 +145,8 @@ def run_job(job: dict) -> dict:
                 gen, data = last
                 res["stub_data"] = res["gens"][-1]
                 res["outside"] = sorted(gen.classes_outside_package)
-                create_stub_files(stubs_generator=gen, stubs_data=data, out_path=out)
+                import l1
+                res["writes"] = l1.traced_create(gen, data, out)
                 res["api_after"] = api.to_dict()
                 files = {}
                 for p in sorted(out.rglob("*")):
